@@ -23,7 +23,7 @@ class Rec:
         self.now = T0         # engine time of the current tick (for UOD callbacks that stamp tag values)
 
 
-def make_uod(rec: Rec, durations: dict, out_values: dict | None = None, fail_at: dict | None = None, overlaps=None):
+def make_uod(rec: Rec, durations: dict, out_values: dict | None = None, fail_at: dict | None = None, overlaps=None, accumulators=False):
     """UOD with
        registers Out1 (write, safe_value=0), Out2 (write, no safe value), In1 (read)
        commands  CmdA, CmdB, CmdC (CmdB/CmdC overlap), each running `durations[name]` iterations (>=1),
@@ -85,6 +85,12 @@ def make_uod(rec: Rec, durations: dict, out_values: dict | None = None, fail_at:
          .with_tag(Tag("Out1", value=0, unit=None, direction=TagDirection.Output))
          .with_tag(Tag("Out2", value=0, unit=None, direction=TagDirection.Output))
          .with_tag(Tag("In1", value=0, unit=None, direction=TagDirection.Input)))
+    if accumulators:
+        # totalizer (register Tot, litres) + column volume: Base units L / mL / CV with the Accumulated / Block Volume and CV tags
+        b = (b.with_hardware_register("Tot", RegisterDirection.Read)
+             .with_tag(Tag("Tot", value=0.0, unit="L", direction=TagDirection.Input))
+             .with_tag(Tag("ColVol", value=2.0, unit="L", direction=TagDirection.NA))
+             .with_accumulated_volume("Tot").with_accumulated_cv("ColVol", "Tot"))
     for name in ("CmdA", "CmdB", "CmdC", "SetOut1"):
         i, e, f = mk_cmd(name)
         b = b.with_command(name=name, exec_fn=e, init_fn=i, finalize_fn=f)
@@ -98,7 +104,7 @@ def make_uod(rec: Rec, durations: dict, out_values: dict | None = None, fail_at:
 class Rig:
     """One engine + observers.  Use `with engine_rig(sym, pcode, ...) as rig:`."""
 
-    def __init__(self, sym, pcode: str, durations=None, out_values=None, fail_at=None, numbered=False, overlaps=None):
+    def __init__(self, sym, pcode: str, durations=None, out_values=None, fail_at=None, numbered=False, overlaps=None, accumulators=False):
         import openpectus.protocol.models as Mdl
         from openpectus.engine.engine import Engine, EngineTiming
         from openpectus.lang.exec.clock import WallClock
@@ -109,7 +115,7 @@ class Rig:
         self.out_values = out_values if out_values is not None else {}
         self.tick_errors = []      # exceptions escaping Engine.tick
         with sym.concrete():
-            uod = make_uod(self.rec, self.durations, self.out_values, fail_at, overlaps)
+            uod = make_uod(self.rec, self.durations, self.out_values, fail_at, overlaps, accumulators)
             self.engine = Engine(uod, EngineTiming(WallClock(), NullTimer(), 0.1, 1.0))
             for t in self.engine._iter_all_tags():
                 t.format_fn = None
